@@ -47,6 +47,7 @@ for m in sorted(os.listdir(os.path.join(V, 'seeded'))):
             'how': 'tools/verify_seeded.sh %s (scratch worktree: demo on the clean tree, demo with the change, the test suite '
                    'with the change); tools/mutant_matrix.sh %s (checks against the changed scratch copy)' % (m, m),
         },
+        'status_note': open(os.path.join(d, 'status.txt')).read().strip() if os.path.exists(os.path.join(d, 'status.txt')) else None,
         'checks_run': results,
         'caught_by': [r['check'] for r in results if r['exit'] == 1],
         'apply': 'git -C /repo apply /verif/seeded/%s/patch.diff   # undo: git -C /repo checkout -- .' % m,
